@@ -354,6 +354,36 @@ func c04Run(c *mon.Ctx, csAny any) {
 		c.Fail(fmt.Sprintf("after the caller overwrote earlier results, another element with the same value encodes as %s want %s", mon.H(other), mon.H(wantU)), "encode-after-scribble", nil)
 	}
 
+	// what was handed out stays what it was: outputs of this element are kept while another element is serialised through
+	// every encoder, and while the caller appends to the slices it holds
+	{
+		var ks keptSet
+
+		o := secp256k1.Base().Double()
+		if len(cs.E.R.L)%2 == 0 {
+			o = secp256k1.NewElement()
+		}
+
+		for _, x := range []*secp256k1.Element{e, o, e} {
+			ks.keep("Hex", nil, x.Hex())
+			ks.keep("Encode", x.Encode(), "")
+			ks.keep("EncodeUncompressed", x.EncodeUncompressed(), "")
+			ks.keep("XCoordinate", x.XCoordinate(), "")
+
+			if b, err := x.MarshalBinary(); err == nil {
+				ks.keep("MarshalBinary", b, "")
+			}
+		}
+
+		c.Eval(15)
+
+		if ks.l[0].want != mon.H(wantC) || ks.l[1].want != string(wantC) {
+			c.Fail(fmt.Sprintf("Hex=%s Encode=%s want %s", ks.l[0].want, mon.H(ks.l[1].b), mon.H(wantC)), "encode-bytes", nil)
+		}
+
+		ks.check(c, "encode-output-changed-later")
+	}
+
 	if !(cs.E.P.Inf && cs.E.R.Kind == "id-canonical" && cs.Via == "") {
 		c.Seen(cs.E, cs.Via)
 
